@@ -65,6 +65,7 @@ def run_one(mod, pid, case):
     H.LOOP_DEBUG_DEFAULT = h % 11 == 3
     H.POLL_DEFAULT = h % 3 == 1
     H.EAGER_DEFAULT = h % 13 == 5 and getattr(mod, "EAGER_OK", True)
+    H.WARN_ERROR_DEFAULT = h % 7 == 2
     try:
         if isinstance(case, dict) and case.get("k") == "soak":
             from . import soak
@@ -74,6 +75,9 @@ def run_one(mod, pid, case):
         if H.DEBUG_DEFAULT and isinstance(r, dict):
             r.setdefault("obs", {})
             r["obs"]["cases_with_debug_logging_on"] = 1
+        if H.WARN_ERROR_DEFAULT and isinstance(r, dict):
+            r.setdefault("obs", {})
+            r["obs"]["cases_with_warnings_as_errors"] = 1
         if H.EAGER_DEFAULT and isinstance(r, dict):
             r.setdefault("obs", {})
             r["obs"]["cases_with_eager_task_factory"] = 1
@@ -86,6 +90,7 @@ def run_one(mod, pid, case):
         H.LOOP_DEBUG_DEFAULT = False
         H.POLL_DEFAULT = False
         H.EAGER_DEFAULT = False
+        H.WARN_ERROR_DEFAULT = False
 
 
 def worker(pid, tier, seed, shard, nshards, out_path, budget_s):
@@ -120,6 +125,9 @@ def worker(pid, tier, seed, shard, nshards, out_path, budget_s):
             if sys.flags.optimize:
                 res["obs"]["cases_run_under_python_O"] = res["obs"].get(
                     "cases_run_under_python_O", 0) + 1
+            if "error" in sys.warnoptions:
+                res["obs"]["cases_run_with_warnings_as_errors"] = res["obs"].get(
+                    "cases_run_with_warnings_as_errors", 0) + 1
             res["evals"] += r.get("evals", 1)
             res["decided"] += r.get("decided", 0)
             if "fps" in r:
@@ -137,6 +145,7 @@ def worker(pid, tier, seed, shard, nshards, out_path, budget_s):
                 res["mech_counts"][m] = res["mech_counts"].get(m, 0) + 1
                 if res["mech_counts"][m] <= 3:
                     res["violations"].append({"optimize": sys.flags.optimize,
+                                              "warnerror": "error" in sys.warnoptions,
                                               "case": case, "mechanism": m,
                                               "detail": H.jsonable(v.get("detail")),
                                               "log": v.get("log")})
@@ -165,7 +174,8 @@ def write_replay(pid, tier, seed, v):
     os.makedirs(os.path.join(VERIF, "replays"), exist_ok=True)
     body = {"property": pid, "tier": tier, "seed": seed, "mechanism": v["mechanism"],
             "case": H.jsonable(v["case"]), "case_pickle": pickle.dumps(v["case"]).hex(),
-            "detail": v["detail"], "log": v.get("log"), "optimize": v.get("optimize", 0)}
+            "detail": v["detail"], "log": v.get("log"), "optimize": v.get("optimize", 0),
+            "warnerror": bool(v.get("warnerror"))}
     h = hashlib.blake2b(json.dumps(body["case"], sort_keys=True).encode()
                         + v["mechanism"].encode(), digest_size=6).hexdigest()
     path = os.path.join(VERIF, "replays", f"{pid}-{h}.json")
@@ -198,7 +208,9 @@ def run_check(pid, tier, seed, procs):
     def launch(i):
         # every fourth shard runs under "python -O" (assert statements compiled out): one
         # more setting of the application's environment the client must not depend on
-        cmd = [sys.executable] + (["-O"] if i % 4 == 3 else []) + [
+        # ... and every fourth one with warnings turned into errors ("python -W error")
+        cmd = [sys.executable] + (["-O"] if i % 4 == 3 else ["-W", "error"] if i % 4 == 1
+                                  else []) + [
             "-m", "vf.runner", "--worker", pid, tier, str(seed), str(i),
             str(nshards), outs[i], str(budget)]
         try:
@@ -338,6 +350,10 @@ def replay(pid, path):
     mod = load_prop(pid)
     with open(path) as f:
         body = json.load(f)
+    if body.get("warnerror") and "error" not in sys.warnoptions:
+        # found with warnings turned into errors: replay it the same way
+        return subprocess.run([sys.executable, "-W", "error", "-m", "vf.runner", pid,
+                               "--replay", path], cwd=VERIF).returncode
     if body.get("optimize") and not sys.flags.optimize:
         # found under "python -O": replay it the same way
         return subprocess.run([sys.executable, "-O", "-m", "vf.runner", pid, "--replay", path],
